@@ -344,6 +344,7 @@ func (x *c20Exec) concurrent(r *Rng, base []byte, W int) (c20Fail, bool) {
 }
 
 func (ck c20) RunCase(c *Ctx, idx int) *CaseOut {
+	wrapIncludes = false
 	r := NewRng(c.Seed, strSeed("C20"), uint64(idx))
 	cs := genC20(r)
 	out := &CaseOut{}
